@@ -307,6 +307,8 @@ class SymInt:
         return SymInt._mk(z3.If(self.e < 0, -self.e, self.e), 0, max(abs(self.lo), abs(self.hi)))
 
     def __mul__(self, k):
+        if isinstance(k, (list, tuple, str, bytes)):
+            return _sym_repeat(k, self)
         if type(k) is SymInt:
             c = [self.lo * k.lo, self.lo * k.hi, self.hi * k.lo, self.hi * k.hi]
             return SymInt._mk(self.e * k.e, min(c), max(c))
@@ -390,6 +392,13 @@ class SymInt:
     def __bool__(self):
         return Engine.cur.branch(self.e != 0)
 
+    def to_bytes(self, length=1, byteorder="big", *, signed=False):
+        if not signed and self.lo < 0:
+            if self < 0:
+                raise OverflowError("can't convert negative int to unsigned")
+        out = [SymInt._mk(z3.ZeroExt(W - 8, z3.Extract(8 * i + 7, 8 * i, self.e)), 0, 255) for i in range(length)]
+        return SymByteArray(out if byteorder == "little" else out[::-1])
+
     def __index__(self):
         raise EngineLimit("symbolic int used at a C boundary (__index__)")
 
@@ -404,6 +413,24 @@ class SymInt:
 
     def __format__(self, spec):
         return f"<sym:{str(self.e)[:30]}>"
+
+
+def _sym_repeat(seq, n):
+    """seq * n for a symbolic count: an allocation proportional to a symbolic value.  Counts against the work budget
+    (WorkBound when the count may exceed it), otherwise forks over the feasible counts."""
+    w = ForkingRange.work
+    budget = w[0] if w is not None else 4096
+    if n > budget:
+        raise WorkBound("allocation proportional to a symbolic count beyond the work budget")
+    k = 0
+    while True:
+        if n == k:
+            if w is not None:
+                w[0] -= k
+            return seq * k
+        k += 1
+        if k > budget + 1:
+            raise EngineLimit("symbolic repeat count not resolved")
 
 
 def z3of(x):
@@ -690,6 +717,21 @@ def sym_max(*args, default=None, key=None):
     return cur
 
 
+def sym_min(*args, default=None, key=None):
+    if key is not None:
+        raise EngineLimit("min(key=) not modelled")
+    it = list(args[0]) if len(args) == 1 else list(args)
+    if not it:
+        if default is None:
+            raise ValueError("min() arg is an empty sequence")
+        return default
+    cur = it[0]
+    for x in it[1:]:
+        if x < cur:
+            cur = x
+    return cur
+
+
 def sym_sum(it, start=0):
     acc = start
     for x in it:
@@ -795,14 +837,26 @@ class StructStub:
         return (SymFloat(z3.simplify(z3.Concat(*parts)), 8 * n),)
 
 
-class SymIntNS:
-    """Stand-in for the `int` builtin inside a module under test: callable + from_bytes/to_bytes."""
-
-    def __call__(self, x=0, *a):
-        return sym_int(x, *a)
-
-    def __instancecheck__(self, obj):
+class _IntMeta(type):
+    def __instancecheck__(cls, obj):
         return isinstance(obj, int)
+
+
+class _FloatMeta(type):
+    def __instancecheck__(cls, obj):
+        return isinstance(obj, float)
+
+
+class FloatNS(metaclass=_FloatMeta):
+    def __new__(cls, x=0.0):
+        return sym_float(x)
+
+
+class SymIntNS(metaclass=_IntMeta):
+    """Stand-in for the `int` builtin inside a module under test: callable, isinstance-compatible, from_bytes."""
+
+    def __new__(cls, x=0, *a):
+        return sym_int(x, *a)
 
     @staticmethod
     def from_bytes(b, byteorder="big", signed=False):
@@ -818,11 +872,13 @@ class SymIntNS:
         return acc
 
 
-def install(mod, names=("int", "float", "bytearray", "ord", "struct", "range", "max", "sorted", "sum", "chr")):
+def install(mod, names=("int", "float", "bytearray", "bytes", "ord", "struct", "range", "max", "min", "sorted", "sum", "chr")):
     """Rebind C-boundary builtins in the namespace of the module under test (no repository file is edited)."""
     table = {
-        "int": sym_int,
-        "float": sym_float,
+        "int": SymIntNS,
+        "float": FloatNS,
+        "bytes": sym_bytearray,
+        "min": sym_min,
         "bytearray": sym_bytearray,
         "ord": sym_ord,
         "chr": sym_chr,
